@@ -176,6 +176,57 @@ func maker(id int, calls int, deep int) M {
 	return p
 }
 
+// Dormant: a closure over a local of main stays dormant while a plain recursion of the given depth
+// grows the value stack under it; afterwards the closure and the frame must still share the variable.
+func Dormant(id, depth int) M {
+	defs := map[string]M{
+		"down": Def([]string{"n"}, "Int", false, B(
+			Let("loc", "Int", Bin("*", Var("n"), Int(2))),
+			If(Bin("<=", Var("n"), Int(0)), B(Return(Int(0))), L{}),
+			CallDecl("r", "down", Bin("-", Var("n"), Int(1))),
+			Return(Bin("+", Bin("+", Var("r"), Int(1)), Bin("-", Var("loc"), Var("loc")))))),
+	}
+	body := B(Let("x", "Int", Int(7)), Let("y", "Int", Int(100)),
+		Lam("inc", nil, "Int", B(Set("x", Bin("+", Var("x"), Int(1))), Return(Var("x")))),
+		Lam("get", nil, "Int", B(Return(Bin("+", Var("x"), Var("y"))))),
+		CallCDecl("a", "inc"), Print(Var("a")),
+		CallDecl("d", "down", Int(depth)), Print(Var("d")),
+		Set("x", Bin("+", Var("x"), Int(10))), Set("y", Int(200)),
+		CallCDecl("b", "inc"), Print(Var("b")), Print(Var("x")),
+		CallCDecl("g", "get"), Print(Var("g")), Return(Int(0)))
+	defs["main_"] = Def(nil, "Int", false, body)
+	p := Prog(id, defs)
+	p["desc"] = fmt.Sprintf("dormant closures across a recursion of depth %d", depth)
+	p["tags"] = ""
+	return p
+}
+
+// nested3b: the innermost closure reaches two variables of the outermost scope through the middle
+// closure's upvalues and also uses the middle closure's parameter and local (slot numbers collide).
+func nested3b(id int, variant int) M {
+	inner := Lam("k3", nil, "Int", B(
+		Set("x", Bin("+", Var("x"), Var("p"))), Set("z", Bin("+", Var("z"), Var("y"))),
+		Return(Bin("+", Bin("*", Var("x"), Int(1000)), Bin("+", Bin("*", Var("z"), Int(10)), Var("p"))))))
+	midBody := B(Let("y", "Int", Bin("+", Var("p"), Int(1))), inner, CallCDecl("a", "k3"), Print(Var("a")), CallCDecl("b", "k3"), Print(Var("p")), Print(Var("y")), Return(Var("b")))
+	if variant == 1 {
+		midBody = B(inner2(), CallCDecl("a", "k3"), Print(Var("a")), Print(Var("p")), Return(Var("a")))
+	}
+	mid := Lam("k2", []string{"p"}, "Int", midBody)
+	body := B(Let("x", "Int", Int(1)), Let("z", "Int", Int(2)), mid,
+		CallCDecl("r1", "k2", Int(3)), Print(Var("r1")), Print(Var("x")), Print(Var("z")),
+		CallCDecl("r2", "k2", Int(5)), Print(Var("r2")), Print(Var("x")), Print(Var("z")), Return(Int(0)))
+	p := Prog(id, map[string]M{"main_": Def(nil, "Int", false, body)})
+	p["desc"] = fmt.Sprintf("nested3b variant=%d", variant)
+	p["tags"] = ""
+	return p
+}
+
+func inner2() M {
+	return Lam("k3", nil, "Int", B(
+		Set("x", Bin("+", Var("x"), Int(100))), Set("z", Bin("+", Var("z"), Int(1000))),
+		Return(Bin("+", Bin("+", Var("x"), Var("z")), Var("p")))))
+}
+
 // tailCapture: a method captures a local in a closure and then leaves through a tail call that
 // passes the closure on; the captured variable must survive the re-use of the frame.
 func tailCapture(id int, variant int) M {
@@ -290,6 +341,15 @@ func Corpus(rng *rand.Rand, nRandom int, firstID int, deepMax int) []M {
 	for v := 0; v < 2; v++ {
 		id++
 		add(tailCapture(id, v))
+		id++
+		add(nested3b(id, v))
+	}
+	for _, d := range []int{5, 60, 400, 900} {
+		if d > deepMax*3 {
+			continue
+		}
+		id++
+		add(Dormant(id, d))
 	}
 	for _, k := range []string{"forin", "fornum", "while", "loop"} {
 		for _, m := range []bool{false, true} {
